@@ -199,210 +199,17 @@ Proof.
 Qed.
 
 (* CDB prefix-set keys *)
-Lemma R_cdb_prefix_vals : forall c, c = 47 \/ c = 52 \/ c = 54 ->
-  vals_of [0; c] R_cdb =
-  [if c =? 47 then prefix_set (fun _ => true) (net_dfile rs)
-   else if c =? 52 then prefix_set (fun s => is_v4 (s_addr s)) (net_dfile rs)
-   else prefix_set (fun s => negb (is_v4 (s_addr s))) (net_dfile rs)].
+Lemma R_cdb_prefix_vals :
+  vals_of [0; 47] R_cdb = [prefix_set (fun _ => true) (net_dfile rs)] /\
+  vals_of [0; 52] R_cdb = [prefix_set (fun s => is_v4 (s_addr s)) (net_dfile rs)] /\
+  vals_of [0; 54] R_cdb = [prefix_set (fun s => negb (is_v4 (s_addr s))) (net_dfile rs)].
 Proof.
-  intros c Hc. unfold R_cdb, records. rewrite !vals_of_app, (lines_convert o serial false false f WF). fold rs.
-  assert (Z : vals_of [0; c] (flat_map (convert false false) rs) = []).
-  { apply vals_of_none. intros k v Hin E. pose proof (lines_keys_long rs rs_ok rs_loc false k v Hin) as L. subst k. cbn in L. lia. }
-  rewrite Z. cbn [app]. unfold accum_cdb, prefix_recs. change (parsed_lines o serial f) with rs.
+  assert (Z : forall c, vals_of [0; c] (flat_map (convert false false) rs) = []).
+  { intros c. apply vals_of_none. intros k v Hin E. pose proof (lines_keys_long rs rs_ok rs_loc false k v Hin) as L. subst k. cbn in L. lia. }
+  unfold R_cdb, records. rewrite !vals_of_app, (lines_convert o serial false false f WF). fold rs.
+  rewrite !Z. cbn [app]. unfold accum_cdb, prefix_recs. change (parsed_lines o serial f) with rs.
   generalize (prefix_set (fun _ => true) (net_dfile rs)) (prefix_set (fun s => is_v4 (s_addr s)) (net_dfile rs))
              (prefix_set (fun s => negb (is_v4 (s_addr s))) (net_dfile rs)).
-  intros P0 P4 P6. destruct Hc as [->|[->| ->]]; reflexivity.
+  intros P0 P4 P6. repeat split; reflexivity.
 Qed.
 End Records.
-
-(* ---------------------------------------------------------------- CDB: GetLocationByMap on any database
-   that holds the prefix sets and the subnet records (Proofs/Location.cdb_is_lpm with the facts it reads
-   off cdb_db made hypotheses) *)
-Lemma cdb_is_lpm_gen : forall sep (F : dfile) (db : list (bytes * bytes)) m a bits ones plen,
-  wf_subnets (nets_of F m) ->
-  Location.get db [0; 47] = Some (prefix_set (fun _ => true) F) ->
-  Location.get db [0; 52] = Some (prefix_set (fun s => is_v4 (s_addr s)) F) ->
-  Location.get db [0; 54] = Some (prefix_set (fun s => negb (is_v4 (s_addr s))) F) ->
-  (forall s, In s (nets_of F m) -> Location.get db (net_key m (s_addr s) (s_len s)) = Some (Rearranger.loc_bytes (s_loc s))) ->
-  (forall x l, x < two128 -> (forall s, In s (nets_of F m) -> ~ (s_addr s = x /\ s_len s = l)) ->
-     Location.get db (net_key m x l) = None) ->
-  a < two128 -> client_plen a bits ones plen ->
-  cdb_get_location sep db m (mkClient (Some a) bits ones) =
-  Ok (lpm_result (lpm (nets_of F m) (fam (clean_mask a plen)) (clean_mask a plen) plen)).
-Proof.
-  intros sep F db m a bits ones plen wfS G47 G52 G54 Hhit Hmiss Halt Hc.
-  assert (Hp : plen <= 128) by (destruct Hc as [[_ [? ->]]|[_ [? [_ ->]]]]; lia).
-  unfold cdb_get_location.
-  assert (Emax : cdb_maxmask (mkClient (Some a) bits ones) = plen).
-  { unfold cdb_maxmask, c_size, c_maskbits, c_isv4. cbn [c_ip c_bits c_ones].
-    destruct Hc as [[-> [H1 ->]]|[-> [H1 [H2 ->]]]].
-    - assert (E : (128 <? ones) = false) by (apply N.ltb_ge; auto). rewrite E.
-      rewrite Bool.andb_false_r. rewrite N.add_0_r, N.mod_mod by discriminate. apply N.mod_small. lia.
-    - assert (E : (32 <? ones) = false) by (apply N.ltb_ge; lia). rewrite E, H2. cbn [andb N.eqb Pos.eqb].
-      rewrite (N.mod_small ones 256) by lia. rewrite N.mod_small by lia. lia. }
-  cbv zeta. rewrite Emax. cbn [c_isv4 c_ip c_addr].
-  set (isv4 := is_v4 a && (96 <=? plen)).
-  set (S := nets_of F m) in *.
-  match goal with |- context [Location.get db ?k] => set (bk := k) end.
-  assert (Hlist : exists masks,
-            Location.get db bk = Some masks /\
-            StronglySorted (fun x y => y < x) masks /\ (forall mk, In mk masks -> mk <= 128) /\
-            (forall t, In t S -> elig isv4 plen a t -> In (s_len t) masks)).
-  { assert (Hin : forall t, In t S -> exists n, In n (f_nets F) /\ nl_map n = m /\ nl_net n = t)
-      by (intros t Ht; apply (nets_of_in F m); auto).
-    unfold bk. destruct sep; [destruct isv4 eqn:V|].
-    - rewrite G52. eexists. split; [reflexivity|].
-      split; [apply prefix_set_sorted|]. split; [apply prefix_set_le|].
-      intros t Ht [E1 [E2 E3]]. destruct (Hin t Ht) as [n [Hn [_ <-]]].
-      destruct (wf_subnetb_spec _ (wf_in S _ wfS Ht)) as [W1 [W2 [W3 W4]]].
-      apply prefix_set_in; auto.
-      unfold isv4 in V. apply Bool.andb_true_iff in V. destruct V as [V1 V2].
-      specialize (E2 eq_refl). apply contains_clean in E3; auto.
-      rewrite <- E3, (is_v4_clean_ge a _ E2 W1). exact V1.
-    - rewrite G54. eexists. split; [reflexivity|].
-      split; [apply prefix_set_sorted|]. split; [apply prefix_set_le|].
-      intros t Ht [E1 [E2 E3]]. destruct (Hin t Ht) as [n [Hn [_ <-]]].
-      destruct (wf_subnetb_spec _ (wf_in S _ wfS Ht)) as [W1 [W2 [W3 W4]]].
-      apply prefix_set_in; auto. apply Bool.negb_true_iff.
-      destruct (is_v4 (s_addr (nl_net n))) eqn:Vt; auto. exfalso.
-      pose proof (v4_addr_len _ W3 Vt) as L. apply contains_clean in E3; auto.
-      rewrite <- E3, (is_v4_clean_ge a _ L W1) in Vt.
-      unfold isv4 in V. rewrite Vt in V. cbn [andb] in V. apply N.leb_gt in V. lia.
-    - rewrite G47. eexists. split; [reflexivity|].
-      split; [apply prefix_set_sorted|]. split; [apply prefix_set_le|].
-      intros t Ht _. destruct (Hin t Ht) as [n [Hn [_ <-]]].
-      destruct (wf_subnetb_spec _ (wf_in S _ wfS Ht)) as [W1 _].
-      apply prefix_set_in; auto. }
-  destruct Hlist as [masks [G [Hs [Hle Hall]]]]. rewrite G.
-  destruct (cdb_loop_spec S wfS (fun x len => Location.get db (net_key m x len)) Hhit Hmiss
-              isv4 plen a Halt masks a Hs Hle (fun _ _ => eq_refl) Hall) as [r [Er Hr]].
-  rewrite Er. f_equal. apply cdb_result_lpm; auto.
-Qed.
-
-(* ---------------------------------------------------------------- FindMap and GetLocationByMap on the compiled databases *)
-Lemma lookup_in_once : forall decls d, NoDup (map decl_key decls) -> In d decls ->
-  lookup_decl decls (md_kind d) (md_wild d) (md_name d) = Some (md_id d).
-Proof.
-  induction decls as [|x t IH]; intros d ND Hd; [destruct Hd|].
-  cbn [map] in ND. inversion ND as [|? ? N1 N2]; subst. cbn [lookup_decl].
-  change ((md_kind x =? md_kind d) && Bool.eqb (md_wild x) (md_wild d) && labels_eqb (md_name x) (md_name d))
-    with (decl_matches (md_kind d) (md_wild d) (md_name d) x).
-  destruct (decl_matches (md_kind d) (md_wild d) (md_name d) x) eqn:M.
-  - apply decl_matches_spec in M as (A1 & A2 & A3). destruct Hd as [->|Hd]; [reflexivity|]. exfalso.
-    apply N1. replace (decl_key x) with (decl_key d) by (unfold decl_key; congruence). apply in_map. exact Hd.
-  - destruct Hd as [->|Hd]; [|exact (IH d N2 Hd)]. exfalso.
-    assert (X : decl_matches (md_kind d) (md_wild d) (md_name d) d = true) by (apply decl_matches_spec; auto). congruence.
-Qed.
-
-Section Lookups.
-Variable sort : list point -> list point.
-Hypothesis Hsort : sort_spec sort.
-Variable o : toracles.
-Variable serial : N.
-Variable f : list bytes.
-Hypothesis WF : wf_file o serial f = true.
-Hypothesis LOK : loc_file_okb o serial f = true.
-Let rs := parsed o serial f.
-Hypothesis ONCE : maps_once rs.
-Hypothesis Hw : forall m, wf_subnets (declared_subnets rs m).
-
-Lemma Hw_nets : forall m, wf_subnets (file_nets rs m).
-Proof. intros m. rewrite <- declared_subnets_nets. apply Hw. Qed.
-
-(* ---- FindMap *)
-Lemma find_map_v1 : forall dbl kind n, kind = 77 \/ kind = 56 -> wf_labelsb n = true ->
-  grouped (R_rdb sort o serial f false) dbl ->
-  v1_find_map dbl [0; kind] (pack_labels n) = Ok (option_map mapid_bytes (map_choice (declared_maps rs) kind n)).
-Proof.
-  intros dbl kind n Hk Wn G. apply (v1_find_map_choice (declared_maps rs) kind dbl mv1); [|exact Wn | reflexivity].
-  intros n' wild W. change ([0; kind] ++ pack_labels n' ++ [suffix_of wild]) with (mkey false kind n' wild).
-  pose proof (R_rdb_map_vals sort o serial f WF LOK ONCE false kind wild n' Hk W) as V. fold rs in V.
-  destruct (lookup_decl (declared_maps rs) kind wild n') as [id|]; cbn [option_map].
-  - exact (grouped_single _ dbl _ _ G V).
-  - exact (grouped_none _ dbl _ G V).
-Qed.
-
-Lemma find_map_cdb : forall stream kind n, kind = 77 \/ kind = 56 -> wf_labelsb n = true ->
-  Permutation stream (R_cdb o serial f) ->
-  cdb_find_map (S (length (pack_labels n))) stream [0; kind] (pack_labels n) true =
-  Ok (option_map mapid_bytes (map_choice (declared_maps rs) kind n)).
-Proof.
-  intros stream kind n Hk Wn P. apply (cdb_find_map_choice (declared_maps rs) kind stream (fun v => v)); [|exact Wn | reflexivity].
-  intros n' wild W. change ([0; kind] ++ pack_labels n' ++ [suffix_of wild]) with (mkey false kind n' wild).
-  pose proof (R_cdb_map_vals o serial f WF LOK ONCE kind wild n' Hk W) as V. fold rs in V.
-  destruct (lookup_decl (declared_maps rs) kind wild n') as [id|]; cbn [option_map].
-  - exact (stream_single _ stream _ _ P V).
-  - exact (stream_none _ stream _ P V).
-Qed.
-
-Lemma find_map_v2 : forall dbl kind n, kind = 77 \/ kind = 56 -> wf_labelsb n = true ->
-  grouped (R_rdb sort o serial f true) dbl ->
-  v2_find_map dbl [0; kind] (pack_labels n) = Ok (option_map mapid_bytes (map_choice (declared_maps rs) kind n)).
-Proof.
-  intros dbl kind n Hk Wn G.
-  pose proof (rs_loc o serial f LOK) as RL. fold rs in RL.
-  assert (V : forall d, In d (declared_maps rs) -> md_kind d = kind ->
-            vals_of (mkey true kind (md_name d) (md_wild d)) (R_rdb sort o serial f true) = [mapid_bytes (md_id d)]).
-  { intros d Hd Ek. destruct (declared_maps_wf rs RL d Hd) as [_ Wd].
-    pose proof (R_rdb_map_vals sort o serial f WF LOK ONCE true kind (md_wild d) (md_name d) Hk Wd) as X. fold rs in X.
-    rewrite <- Ek in X at 2. rewrite (lookup_in_once _ d ONCE Hd) in X. exact X. }
-  apply (v2_find_map_choice (declared_maps rs) kind dbl).
-  - intros d Hd. exact (proj2 (declared_maps_wf rs RL d Hd)).
-  - intros d d' Hd Hd' E1 E2 E3. rewrite (once_uniq _ ONCE d d' Hd Hd' E1 E2 E3). reflexivity.
-  - intros d Hd Ek. rewrite <- mkey_v2. exact (grouped_in_single _ dbl _ _ G (V d Hd Ek)).
-  - intros k v Hin Hp. destruct (grouped_only _ dbl k v G Hin) as [NE X].
-    destruct (vals_of k (R_rdb sort o serial f true)) as [|v0 t] eqn:E0; [contradiction|].
-    assert (Hin0 : In (k, v0) (R_rdb sort o serial f true)) by (apply vals_of_In; rewrite E0; left; reflexivity).
-    destruct (R_rdb_map_only sort o serial f WF LOK k v0 kind Hk Hin0 Hp) as (d & Hd & Ek & -> & _). fold rs in Hd.
-    exists d. split; [exact Hd|]. split; [exact Ek|]. split; [apply mkey_v2|].
-    apply X. rewrite <- E0. exact (V d Hd Ek).
-  - exact Wn.
-Qed.
-
-(* ---- GetLocationByMap *)
-Lemma gl_rdb : forall v2 (db : Model.Batch.store) dbl,
-  kvs_ok (flat_map (recs_of bytes (conv_line o serial false v2)) f) ->
-  rdb_compilation bytes (conv_line o serial true v2) (accum_rdb sort o serial) [feature_kv v2] f db ->
-  lists_store dbl db ->
-  forall m c, wf_client c -> exists r, rdb_get_location dbl m c = Ok r /\
-    hit_of r = lpm (file_nets rs m) (cfam c) (search_addr true c) (eff_plen c).
-Proof.
-  intros v2 db dbl KV C Hl.
-  exact (rdb_gl_is_lpm sort (file_nets rs) dbl Hsort Hw_nets
-           (rdb_compiled_holds_points sort Hsort o serial v2 f WF (loc_file_no_rp o serial f LOK) Hw_nets KV db dbl C Hl)).
-Qed.
-
-Lemma find_pred : forall (S : list subnet) a len s, wf_subnets S -> In s S -> s_addr s = a -> s_len s = len ->
-  List.find (fun s => (s_addr s =? a) && (s_len s =? len)) S = Some s.
-Proof.
-  intros S a len s W Hs Ea El.
-  destruct (List.find (fun s => (s_addr s =? a) && (s_len s =? len)) S) as [s'|] eqn:E.
-  - apply find_some in E as [Hs' C]. apply andb_true_iff in C as [C1 C2]. apply N.eqb_eq in C1, C2.
-    f_equal. apply (wf_same_block S s' s W Hs' Hs); congruence.
-  - exfalso. pose proof (find_none _ _ E s Hs) as X. cbn beta in X. rewrite Ea, El, !N.eqb_refl in X. discriminate X.
-Qed.
-
-Lemma gl_cdb : forall sep stream, Permutation stream (R_cdb o serial f) ->
-  forall m c, wf_client c -> exists r, cdb_get_location sep stream m c = Ok r /\
-    hit_of r = lpm (file_nets rs m) (cfam c) (search_addr true c) (eff_plen c).
-Proof.
-  intros sep stream P.
-  apply (c03_shape_suffices (file_nets rs) (cdb_get_location sep stream)).
-  intros m a bits ones plen Halt Hc. rewrite c03_lpm_result_eq. apply c03_client_plen_eq in Hc.
-  unfold file_nets.
-  assert (PV : forall c, c = 47 \/ c = 52 \/ c = 54 -> Location.get stream [0; c] = Some _) by
-    (intros c Hcc; exact (stream_single _ stream _ _ P (R_cdb_prefix_vals o serial f WF LOK c Hcc))).
-  apply (cdb_is_lpm_gen sep (net_dfile rs) stream m a bits ones plen (Hw_nets m)
-           (PV 47 (or_introl eq_refl)) (PV 52 (or_intror (or_introl eq_refl))) (PV 54 (or_intror (or_intror eq_refl)))); [| |exact Halt|exact Hc].
-  - intros s Hs. fold (file_nets rs m) in Hs. rewrite <- declared_subnets_nets in Hs.
-    destruct (wf_subnetb_spec s (wf_in _ s (Hw m) Hs)) as (_ & Alt & _).
-    pose proof (R_cdb_net_vals o serial f WF LOK m (s_addr s) (s_len s) Alt (Hw m)) as V. fold rs in V.
-    rewrite (find_pred _ _ _ s (Hw m) Hs eq_refl eq_refl) in V. exact (stream_single _ stream _ _ P V).
-  - intros x l Hx Hno.
-    pose proof (R_cdb_net_vals o serial f WF LOK m x l Hx (Hw m)) as V. fold rs in V.
-    destruct (List.find (fun s => (s_addr s =? x) && (s_len s =? l)) (declared_subnets rs m)) as [s'|] eqn:E.
-    + exfalso. apply find_some in E as [Hs' C]. apply andb_true_iff in C as [C1 C2]. apply N.eqb_eq in C1, C2.
-      apply (Hno s'); [fold (file_nets rs m); rewrite <- declared_subnets_nets; exact Hs' | auto].
-    + exact (stream_none _ stream _ P V).
-Qed.
-End Lookups.
